@@ -8,6 +8,7 @@ package simk
 
 import (
 	"crypto/sha256"
+	"encoding/json"
 	"encoding/hex"
 	"fmt"
 	"sort"
@@ -363,4 +364,28 @@ func SortedKeys(m map[string]int) []string {
 	}
 	sort.Strings(ks)
 	return ks
+}
+
+// Recode converts a generic value (struct or decoded JSON) into out via a JSON round trip, so
+// that freshly generated and replayed cases are read the same way.
+func Recode(in interface{}, out interface{}) {
+	bs, err := json.Marshal(in)
+	if err == nil {
+		_ = json.Unmarshal(bs, out)
+	}
+}
+
+// PanicSite extracts the innermost frame of the code under test from a stack trace.
+func PanicSite(stack string) string {
+	lines := strings.Split(stack, "\n")
+	for i, l := range lines {
+		if strings.HasPrefix(l, "github.com/dtn7/dtn7-go/") && i+1 < len(lines) && !strings.Contains(lines[i+1], "/zz_") {
+			f := l
+			if j := strings.LastIndex(f, "("); j > 0 {
+				f = f[:j]
+			}
+			return strings.TrimPrefix(f, "github.com/dtn7/dtn7-go/pkg/")
+		}
+	}
+	return "unknown"
 }
